@@ -16,12 +16,15 @@ import (
 	"strings"
 	"time"
 
+	"golang.org/x/tools/go/ssa"
+
 	"vf/symgo"
 )
 
 const verifRoot = "/verif"
 
 var selftestInfo string
+var staticSide []string
 
 type KnownFinding struct {
 	ID       string `json:"id"`
@@ -129,6 +132,12 @@ func cmdCheck(args []string) int {
 		fmt.Printf("loaded in %.1fs\n", loadT.Seconds())
 	}
 	known := loadKnown()
+	var staticNotes []string
+	var staticViolations []string
+	if *prop == "C19" {
+		staticNotes, staticViolations = staticFlagScan(ld)
+		staticSide = staticNotes
+	}
 	// differential self-test of the leaf models (real function vs model) on every run
 	stN, stFails := symgo.SelfTest(int64(seed)+1, 120)
 	selftestInfo = fmt.Sprintf("%d differential model checks, %d mismatches", stN, len(stFails))
@@ -240,6 +249,9 @@ func cmdCheck(args []string) int {
 		}
 		for _, v := range hr.X.Violations {
 			st := hr.Confirm[v]
+			if hr.Spec.ModelOnly {
+				st = "confirmed" // stated in the harness header: stub-dependent, reported from the solver model
+			}
 			if st != "confirmed" {
 				inconclusive = append(inconclusive, fmt.Sprintf("%s: counterexample for %q did not reproduce natively (%s)", hr.Spec.Name, v.Label, st))
 				continue
@@ -255,9 +267,20 @@ func cmdCheck(args []string) int {
 			path := writeReplayDir(*repo, *prop, hr, v, ld, thorough)
 			lines = append(lines, fmt.Sprintf("VIOLATION property=%s replay=%s", *prop, path))
 			lines = append(lines, fmt.Sprintf("  harness=%s label=%q kind=%s %s", hr.Spec.Name, v.Label, v.Kind, v.Site))
+			if hr.Spec.ModelOnly {
+				lines = append(lines, "  (reported from the solver model: this harness stubs library calls and has no native replay)")
+			}
 			lines = append(lines, "  inputs: "+drawsSummary(v.Draws))
 			exit = 1
 		}
+	}
+	for _, sv := range staticViolations {
+		dir := filepath.Join(verifRoot, "replays", *prop, "static")
+		os.MkdirAll(dir, 0o755)
+		os.WriteFile(filepath.Join(dir, "finding.txt"), []byte(sv+"\n"), 0o644)
+		lines = append(lines, fmt.Sprintf("VIOLATION property=%s replay=%s", *prop, dir), "  static side condition: "+sv)
+		nViol++
+		exit = 1
 	}
 	for _, l := range lines {
 		fmt.Println(l)
@@ -491,7 +514,13 @@ func nativeReplays(repo, prop string, ld *symgo.Loaded, results []*harnessResult
 		}
 		pkg := hr.File.PkgPath
 		for i, v := range hr.X.Violations {
+			if hr.Spec.ModelOnly {
+				continue
+			}
 			byPkg[pkg] = append(byPkg[pkg], &pendingReplay{hr: hr, v: v, name: fmt.Sprintf("%s/cex%d", hr.Spec.Name, i)})
+		}
+		if hr.Spec.ModelOnly {
+			continue
 		}
 		// witnesses: quick replays up to 4 per harness (selection rotated by seed), thorough all
 		var labels []string
@@ -792,6 +821,7 @@ func writeEvidence(prop, tier string, seed int, results []*harnessResult, traces
 			"functions_encoded_lib":         libNames,
 			"models_and_stubs":              intr,
 			"model_selftest":                selftestInfo,
+			"static_side_conditions":        staticSide,
 			"queries":                       q,
 			"solver":                        solver,
 			"solver_time_s":                 round(solverT),
@@ -872,4 +902,102 @@ func nonNil(l []string) []string {
 		return []string{}
 	}
 	return l
+}
+
+// staticFlagScan is the structural side condition of C19 (an SSA call-site scan, not a solver result): every flag
+// whose value type carries credentials is registered through anyflag.New*WithRedact with one of the redactors whose
+// non-interference the harness decides.
+func staticFlagScan(ld *symgo.Loaded) (notes, violations []string) {
+	pkg := ld.SSAPkgs["github.com/saucelabs/forwarder/bind"]
+	if pkg == nil {
+		return []string{"package bind not loaded"}, nil
+	}
+	// flags named by the property: credentials in the value
+	secretFlags := map[string]string{"basic-auth": "", "api-basic-auth": "", "proxy": "", "credentials": ""}
+	okRedactors := map[string]bool{"github.com/saucelabs/forwarder/bind.RedactURL": true, "github.com/saucelabs/forwarder/bind.RedactUserinfo": true,
+		"github.com/saucelabs/forwarder.RedactHostPortUser": true, "github.com/saucelabs/forwarder/bind.RedactBase64": true}
+	strip := func(v ssa.Value) ssa.Value {
+		for {
+			switch x := v.(type) {
+			case *ssa.MakeInterface:
+				v = x.X
+			case *ssa.ChangeInterface:
+				v = x.X
+			case *ssa.ChangeType:
+				v = x.X
+			default:
+				return v
+			}
+		}
+	}
+	for _, m := range pkg.Members {
+		fn, ok := m.(*ssa.Function)
+		if !ok {
+			continue
+		}
+		for _, b := range fn.Blocks {
+			for _, ins := range b.Instrs {
+				call, ok := ins.(*ssa.Call)
+				if !ok {
+					continue
+				}
+				callee := call.Call.StaticCallee()
+				if callee == nil {
+					continue
+				}
+				cn := callee.String()
+				if cn != "(*github.com/spf13/pflag.FlagSet).Var" && cn != "(*github.com/spf13/pflag.FlagSet).VarP" {
+					continue
+				}
+				var nameC *ssa.Const
+				switch nv := call.Call.Args[2].(type) {
+				case *ssa.Const:
+					nameC = nv
+				case *ssa.BinOp: // prefix + "basic-auth"
+					nameC, _ = nv.Y.(*ssa.Const)
+				}
+				if nameC == nil || nameC.Value == nil {
+					continue
+				}
+				flagName := strings.Trim(nameC.Value.ExactString(), "\"")
+				val, ok := strip(call.Call.Args[1]).(*ssa.Call)
+				if !ok || val.Call.StaticCallee() == nil {
+					continue
+				}
+				vn := val.Call.StaticCallee().String()
+				if !strings.Contains(vn, "github.com/mmatczuk/anyflag.New") {
+					continue
+				}
+				pos := ld.Prog.Fset.Position(call.Pos())
+				site := fmt.Sprintf("--%s (%s:%d)", flagName, filepath.Base(pos.Filename), pos.Line)
+				_, secret := secretFlags[flagName]
+				rname := ""
+				if strings.Contains(vn, "WithRedact") {
+					switch r := val.Call.Args[len(val.Call.Args)-1].(type) {
+					case *ssa.Function:
+						rname = r.String()
+					case *ssa.MakeClosure:
+						rname = r.Fn.String()
+					}
+				}
+				if secret {
+					secretFlags[flagName] = site
+					if !okRedactors[rname] {
+						violations = append(violations, site+" is registered without one of the verified redactors (redactor: "+rname+")")
+						continue
+					}
+				}
+				if rname != "" {
+					notes = append(notes, site+" -> "+rname)
+				}
+			}
+		}
+	}
+	for name, site := range secretFlags {
+		if site == "" {
+			notes = append(notes, "--"+name+": no registration found in package bind (not asserted)")
+		}
+	}
+	sort.Strings(notes)
+	return notes, violations
 }
